@@ -14,7 +14,7 @@ import itertools
 from checks import ctxcomp as cc
 from checks.ctxcomp import Mod, Feat, Sub, History, Snap
 
-LEAN_TARGETS = ["LyModel.Props.C09", "LyModel.Props.C09Compiled"]
+LEAN_TARGETS = ["LyModel.Props.C09", "LyModel.Props.C09Compiled", "LyModel.Props.C09DepSet"]
 AUDIT = "Audit/C09.lean"
 GENERATED = ["CtxFacts"]
 ASSUMPTIONS = [
